@@ -20,6 +20,7 @@ for a in args or [os.path.join(ROOT, "tools", "mutants")]:
         patches += sorted(glob.glob(os.path.join(a, "*.patch"))) + sorted(glob.glob(os.path.join(a, "*", "patch.diff")))
     else:
         patches.append(os.path.abspath(a))
+patches = [os.path.abspath(x) for x in patches]
 assert subprocess.run(["git", "-C", REPO, "diff", "--quiet"]).returncode == 0, "/repo has uncommitted changes"
 results = []
 for p in patches:
